@@ -1,7 +1,7 @@
 /-!
 # Interleaved model of N hub server processes (`serve.rs::handle_put`) over an inode-level file system
 
-Each process executes one Put as the sequence of file-system calls the code makes: create/truncate
+Each process executes one Put (or one Delete, see `dLock`) as the sequence of file-system calls the code makes: create/truncate
 its staging file, write the content chunk by chunk (as the client delivers it), verify the hash of
 the bytes IT streamed, take the commit lock (`flock`), read the current hash of the destination,
 rename the staging file onto the destination (commit) or onto the conflict-copy name (stale CAS),
@@ -32,7 +32,9 @@ inductive Pc
   | verified (fd : Ino)        -- all chunks written, hash test passed
   | locked (fd : Ino)          -- holds the commit lock
   | decided (fd : Ino) (cur : Option Hash)
-  | renamed                    -- rename done, still holds lock
+  | renamed                    -- rename / unlink / no-op done, still holds lock
+  | dlocked                    -- a Delete: holds the commit lock (no staging file)
+  | ddecided (cur : Option Hash)   -- a Delete: current hash read under the lock
   | done
   | dead
   deriving DecidableEq
@@ -81,6 +83,17 @@ inductive Step (S : Sys) : State → State → Prop
                                     (s.dir (S.tmpOf i (S.req i).dst)))
                                   (S.tmpOf i (S.req i).dst) none,
                         pc := upd s.pc i .renamed }
+  -- `handle_delete`: the same CAS under the same lock, no staging. A process is a Put if its first
+  -- step creates its staging file and a Delete if its first step takes the lock; of `req i` a Delete
+  -- uses `dst` and `expected` only.
+  | dLock (s i) (h : s.pc i = .start) (hl : s.lock = none) :
+      Step S s { s with lock := some i, pc := upd s.pc i .dlocked }
+  | dRead (s i) (h : s.pc i = .dlocked) :
+      Step S s { s with pc := upd s.pc i (.ddecided ((s.dir (S.req i).dst).map (fun n => S.H (s.ino n)))) }
+  | dUnlink (s i cur) (h : s.pc i = .ddecided cur) (hc : cur = (S.req i).expected) :
+      Step S s { s with dir := upd s.dir (S.req i).dst none, pc := upd s.pc i .renamed }
+  | dKeep (s i cur) (h : s.pc i = .ddecided cur) (hc : cur ≠ (S.req i).expected) :
+      Step S s { s with pc := upd s.pc i .renamed }
   | unlock (s i) (h : s.pc i = .renamed) :
       Step S s { s with lock := none, pc := upd s.pc i .done }
   | kill (s i) :
